@@ -575,6 +575,9 @@ func TestC08(t *testing.T) {
 	if r.Lane == 0 {
 		quicLanes(r, "gating")
 	}
+	if r.Thorough() {
+		r.Exhaustive("all 4681 candidate scripts over the 8-symbol alphabet up to length 4, on both candidate kinds (the timing class per script is fixed)")
+	}
 	ng := r.N(24, 800)
 	for k := 0; k < ng; k++ {
 		for _, lane := range []string{"two-candidates", "probe-before-listeners", "retry-within-timeout"} {
